@@ -44,6 +44,10 @@ structure L where
   wHeight : Int := 5
   tip : Int := 5
   started : Bool := false
+  /-- the wallet's address manager is locked (`wlock`, an expired unlock timeout, an `Unlock` with a wrong passphrase) -/
+  locked : Bool := false
+  /-- an unlock timeout is armed in `walletLocker` -/
+  timed : Bool := false
 
 def baseHeight : Int := 5
 def maturity : Int := 100
@@ -300,6 +304,7 @@ def showErr : CoinSelect.Err → String
   | .insufficient => "insufficient"
   | .notEligible _ => "not-eligible"
   | .duplicateSelected _ => "duplicate-selected"
+  | .locked => "locked"
 
 def opCreate (l : L) (t : List String) : L × String :=
   let g := fun k => (kv t k).getD ""
@@ -335,7 +340,10 @@ def opCreate (l : L) (t : List String) : L × String :=
           outputs := specs.map fun s => ⟨s.amount, kindScriptLen s.kind⟩,
           feeRate := rate, strategy := strat, selected := sel, allow,
           changeScriptLen := kindScriptLen chgScript, changeWitness := kindWitness chgScript }
+      -- no watch-only wallet / account is generated by this engine
+      let ls : CoinSelect.LockState := { locked := l.locked, managerWatchOnly := false, acctHasPriv := true }
       let isRand := (match strat with | .random _ => true | _ => false) && sel.isEmpty
+      if isRand && l.locked then (l, "err=locked") else
       if isRand then
         -- the shuffle is unknown to the driver: answer only what holds for every shuffle (the generator keeps such
         -- requests away from the boundary): success iff all positively yielding eligible coins together suffice.
@@ -344,12 +352,14 @@ def opCreate (l : L) (t : List String) : L × String :=
         let need := CoinSelect.sumOutputs req.outputs + CoinSelect.feeOfInputs req py
         if CoinSelect.total py < need then (l, "err=insufficient") else
         if api == "send" then
+          let ans := if (g "notify") == "fail" then Publish.Answer.notifyFailed else ans
+          let sent := s!" sent={Publish.sendCount (Publish.publishEffects ans)}"
           if ans == .accepted || ans == .inMempool || ans == .alreadyKnown || ans == .alreadyConfirmed then
-            if (g "notify") == "fail" then (l, "err=publish") else (l, "ok rand pub=ok")
-          else (l, "err=publish")
+            (l, "ok rand pub=ok" ++ sent)
+          else (l, "err=publish" ++ sent)
         else (l, "ok rand")
       else
-      match CoinSelect.createTx l.view req with
+      match CoinSelect.txCreator ls l.view req with
       | .error e => (l, "err=" ++ showErr e)
       | .ok a =>
         let coins := mkCoins specs ++ (match a.change with
@@ -364,8 +374,9 @@ def opCreate (l : L) (t : List String) : L × String :=
         else if api == "send" then
           let ans := if (g "notify") == "fail" then Publish.Answer.notifyFailed else ans
           let (s', ok) := Publish.publish l.store tx.toU ans
-          if ok then (l.applyStore s' (some tx), reply ++ " pub=ok")
-          else (l.applyStore s' none, "err=publish")
+          let sent := s!" sent={Publish.sendCount (Publish.publishEffects ans)}"
+          if ok then (l.applyStore s' (some tx), reply ++ " pub=ok" ++ sent)
+          else (l.applyStore s' none, "err=publish" ++ sent)
         else (l, reply)
     | _, _, _, _, _ => (l, "bad-op")
   | _, _, _, _, _, _ => (l, "bad-op")
@@ -383,7 +394,7 @@ def opPublish (l : L) (t : List String) : L × String :=
       let ans := if (kv t "notify") == some "fail" then Publish.Answer.notifyFailed else ans
       if !dfsAgrees (Publish.insert l.store tx.toU) id then (l, "model-mismatch removeConflict") else
       let (s', ok) := Publish.publish l.store tx.toU ans
-      (l.applyStore s' none, if ok then "ok" else "err")
+      (l.applyStore s' none, (if ok then "ok" else "err") ++ s!" sent={Publish.sendCount (Publish.publishEffects ans)}")
   | _, _ => (l, "bad-op")
 
 def opResync (l : L) (restart : Bool) (t : List String) : L × String :=
@@ -392,9 +403,17 @@ def opResync (l : L) (restart : Bool) (t : List String) : L × String :=
   | some answers =>
     let f := fun (id : Nat) => (answers.lookup id).getD .accepted
     if !(l.store.unmined.all fun u => dfsAgrees l.store u.id) then (l, "model-mismatch removeConflict") else
-    let (s', sent) := Publish.resend l.store f
+    let twice := (kv t "twice") == some "1"
+    if twice && restart then (l, "bad-op") else
+    let (s', sent) :=
+      if twice then
+        let r := Publish.resendTwice l.store f
+        (r.1, r.2.1 ++ r.2.2)
+      else Publish.resend l.store f
     let l := l.applyStore s' none
-    let l := { l with wHeight := l.tip, locks := if restart then [] else l.locks }
+    -- a freshly opened wallet is unlocked (without timeout) by the harness
+    let l := { l with wHeight := l.tip, locks := if restart then [] else l.locks,
+                      locked := if restart then false else l.locked, timed := if restart then false else l.timed }
     (l, "ok offered=" ++ joinWith "," (sortStrs (sent.map fun i => s!"T{i}")))
 
 def step (l : L) (line : String) : L × String :=
@@ -426,6 +445,14 @@ def step (l : L) (line : String) : L × String :=
       match (kv rest "adv").bind String.toNat? with
       | some n => ({ l with now := l.now + n }, s!"ok now={l.now + n}")
       | none => (l, "bad-op")
+    | "wlock" => ({ l with locked := true, timed := false }, "ok locked=true")
+    | "wunlock" =>
+      -- a wrong passphrase locks the manager (`Manager.Unlock`) and leaves an armed timeout alone
+      if (kv rest "pass") == some "bad" then ({ l with locked := true }, "err=wrong-passphrase locked=true")
+      else ({ l with locked := false, timed := (kv rest "timed") == some "1" }, "ok locked=false")
+    | "wexpire" =>
+      let l := if l.timed then { l with locked := true, timed := false } else l
+      (l, s!"ok locked={l.locked}")
     | "create" => opCreate l rest
     | "publish" => opPublish l rest
     | "resync" => opResync l false rest
